@@ -59,11 +59,12 @@ def handleTokens (inp : List String) (obs : String) : Verdict :=
       let m := showRes (align c.al (c.call false))
       if m == normObs obs then ok [opTag c, "mode-" ++ c.mode] else diff m [opTag c, "mode-" ++ c.mode]
     else
-      let m := modelObsLL c
+      let mres := align c.al (c.call false)
+      let m := modelObsLL c mres
       let agree := m == normObs obs
       let base := [opTag c, "r-" ++ lenTag c.r.length, "q-" ++ lenTag c.q.length,
                    if c.alpha.length ≤ 4 then "small-alphabet" else if c.alpha.length ≤ 5 then "dna" else "protein"]
-      match align c.al (c.call false) with
+      match mres with
       | .ok mps =>
         let inScope := !c.r.isEmpty && !c.q.isEmpty && gapsNonPos c
         let tags := base ++ (if inScope then ["nt"] else ["outside-hypotheses"]) ++
